@@ -260,3 +260,273 @@ Lemma nocache_not_denied_as_twin : forall q s r,
 Proof.
   intros q s r H. rewrite serve_erase, <- nocache_not_denied_unaffected by assumption. reflexivity.
 Qed.
+
+(** * 5. the route cache: a hit re-evaluates the applying filters
+
+    Everything here is for quirk records whose cache-hit flag is off (in particular
+    [ideal]).  [twin_out] is the routing decision of the filter-less, cache-less twin. *)
+
+Lemma paths_loop_nth : forall l i hm mm pi p,
+  paths_loop l i hm mm = PHit pi p ->
+  exists n b, pi = (i + n)%nat /\ nth_error l n = Some (p, b).
+Proof.
+  induction l as [|[p0 b0] t IH]; intros i hm mm pi p H; cbn [paths_loop] in H; [discriminate|].
+  destruct (negb (pb_path b0)).
+  { apply IH in H as (n & b & -> & Hn). exists (S n), b. split; [lia | exact Hn]. }
+  destruct (negb (pb_method b0)).
+  { apply IH in H as (n & b & -> & Hn). exists (S n), b. split; [lia | exact Hn]. }
+  destruct (mp_has_hdr p0 && negb (pb_hdr b0)).
+  { apply IH in H as (n & b & -> & Hn). exists (S n), b. split; [lia | exact Hn]. }
+  inversion H; subst. exists 0%nat, b0. split; [lia | reflexivity].
+Qed.
+
+Lemma nth_error_combine_fst : forall {A B} (l1 : list A) (l2 : list B) n a b,
+  nth_error (combine l1 l2) n = Some (a, b) -> nth_error l1 n = Some a.
+Proof.
+  induction l1 as [|x t IH]; intros [|y l2] [|n] a b H; cbn in *; try discriminate.
+  - inversion H; reflexivity.
+  - eapply IH; eassumption.
+Qed.
+
+Lemma erased_route_shape : forall q ip (rs : list zrule) k hm mm ri pi put,
+  rules_loop q ip (map erase_z rs) k hm mm = (ORoute ri pi, put) ->
+  exists n rule hostm pbs p,
+    ri = (k + n)%nat /\ nth_error rs n = Some (rule, (hostm, pbs)) /\
+    nth_error (mr_paths rule) pi = Some p /\
+    forall q' ip', existsb (deny q' ip') (applying_rules rs) =
+                   negb (visited_allow q' ip' rs (S n) && allow_opt q' (mp_filter p) ip').
+Proof.
+  intros q ip rs. induction rs as [|[r [hostm pbs]] t IH]; intros k hm mm ri pi put H;
+    cbn [rules_loop map erase_z fst snd] in H.
+  - destruct hm; [|destruct mm]; discriminate.
+  - destruct hostm; cbn [negb] in H.
+    + cbn [erase_rule mr_filter mr_paths allow_opt negb] in H. rewrite paths_loop_erase in H.
+      pose proof (paths_loop_find (combine (mr_paths r) pbs) 0 hm mm) as Hf.
+      destruct (paths_loop (combine (mr_paths r) pbs) 0 hm mm) as [pi0 p0 | hm' mm'] eqn:Ep.
+      * cbn [erase_path mp_filter allow_opt] in H. inversion H; subst ri pi. clear H.
+        apply paths_loop_nth in Ep as (n & b & -> & Hn). apply nth_error_combine_fst in Hn.
+        destruct Hf as [b' Hb'].
+        exists 0%nat, r, true, pbs, p0. repeat split; [lia | exact Hn |].
+        intros q' ip'. cbn [applying_rules negb]. rewrite Hb'. cbn [existsb visited_allow]. unfold deny.
+        destruct (allow_opt q' (mr_filter r) ip'), (allow_opt q' (mp_filter p0) ip'); reflexivity.
+      * apply IH in H as (n & rule & hostm' & pbs' & p & -> & Hn & Hp & Happ).
+        exists (S n), rule, hostm', pbs', p. repeat split; [lia | exact Hn | exact Hp |].
+        intros q' ip'. cbn [applying_rules negb]. rewrite Hf. cbn [existsb]. rewrite Happ.
+        cbn [visited_allow]. unfold deny.
+        destruct (allow_opt q' (mr_filter r) ip'); reflexivity.
+    + apply IH in H as (n & rule & hostm' & pbs' & p & -> & Hn & Hp & Happ).
+      exists (S n), rule, hostm', pbs', p. repeat split; [lia | exact Hn | exact Hp |].
+      intros q' ip'. cbn [applying_rules negb]. rewrite Happ. cbn [visited_allow]. reflexivity.
+Qed.
+
+Lemma hit_route : forall q q' s r ri pi,
+  q_hit_skips_visited_rules q = false ->
+  search_nocache q' (erase s) r = ORoute ri pi ->
+  search_hit q s r (CRoute ri pi) = if denied q s r then OForbidden else ORoute ri pi.
+Proof.
+  intros q q' s r ri pi Hq H. unfold search_nocache, search_miss in H.
+  cbn [erase ms_filter ms_rules allow_opt negb] in H. rewrite combine_erase_rules in H.
+  destruct (rules_loop q' (rq_ip r) (map erase_z (combine (ms_rules s) (rq_m r))) 0 false false)
+    as [o put] eqn:E. cbn [fst] in H. subst o.
+  apply erased_route_shape in E as (n & rule & hostm & pbs & p & Hri & Hn & Hp & Happ).
+  cbn in Hri. subst ri. apply nth_error_combine_fst in Hn.
+  unfold search_hit. rewrite Hn, Hp, Hq. unfold denied, applying. cbn [existsb].
+  pose proof (Happ q (rq_ip r)) as Ha. unfold deny in Ha. rewrite Ha.
+  destruct (allow_opt q (ms_filter s) (rq_ip r)),
+           (visited_allow q (rq_ip r) (combine (ms_rules s) (rq_m r)) (S n)),
+           (allow_opt q (mp_filter p) (rq_ip r)); reflexivity.
+Qed.
+
+Lemma rules_loop_put_sound : forall q ip q' ip' (rs : list zrule) k hm mm o v,
+  rules_loop q ip rs k hm mm = (o, Some v) ->
+  fst (rules_loop q' ip' (map erase_z rs) k hm mm) =
+  match v with CStatus c => OStatus c | CRoute ri pi => ORoute ri pi end.
+Proof.
+  intros q ip q' ip' rs. induction rs as [|[r [hostm pbs]] t IH]; intros k hm mm o v H;
+    cbn [rules_loop map erase_z fst snd] in *.
+  - destruct hm; [discriminate|]. destruct mm; inversion H; reflexivity.
+  - destruct hostm; cbn [negb] in *; [|eapply IH; eassumption].
+    cbn [erase_rule mr_filter mr_paths allow_opt negb]. rewrite paths_loop_erase.
+    destruct (allow_opt q (mr_filter r) ip); cbn [negb] in H; [|discriminate].
+    destruct (paths_loop (combine (mr_paths r) pbs) 0 hm mm) as [pi0 p0 | hm' mm'].
+    + cbn [erase_path mp_filter mp_has_hdr allow_opt].
+      destruct (mp_has_hdr p0); destruct (allow_opt q (mp_filter p0) ip); inversion H; reflexivity.
+    + eapply IH; eassumption.
+Qed.
+
+Lemma rules_loop_status : forall q ip (rs : list zrule) k hm mm c,
+  fst (rules_loop q ip rs k hm mm) = OStatus c -> c = 400 \/ c = 405 \/ c = 404.
+Proof.
+  intros q ip rs. induction rs as [|[r [hostm pbs]] t IH]; intros k hm mm c H; cbn [rules_loop] in H.
+  - destruct hm; [|destruct mm]; cbn in H; inversion H; auto.
+  - destruct hostm; cbn [negb] in H; [|eapply IH; eassumption].
+    destruct (allow_opt q (mr_filter r) ip); cbn [negb fst] in H; [|discriminate].
+    destruct (paths_loop (combine (mr_paths r) pbs) 0 hm mm) as [pi0 p0 | hm' mm'].
+    + destruct (allow_opt q (mp_filter p0) ip); cbn in H; discriminate.
+    + eapply IH; eassumption.
+Qed.
+
+Section History.
+  Variable q : quirks.
+  Hypothesis Hq : q_hit_skips_visited_rules q = false.
+
+  Definition twin_out (s : mserver) (r : mreq) : mout := search_nocache q (erase s) r.
+
+  (** a cached value is sound for a request: it is the twin's routing decision *)
+  Definition sound (s : mserver) (r : mreq) (v : cval) : Prop :=
+    twin_out s r = match v with CStatus c => OStatus c | CRoute ri pi => ORoute ri pi end.
+
+  Definition cache_ok (s : mserver) (c : cache) (fut : list mreq) : Prop :=
+    forall r v, In r fut -> cache_get (rq_key r) c = Some v -> sound s r v.
+
+  (** the routing decision of the twin depends on the cache key only (no key
+      collisions, no header-dependent answer under one key: property C12) *)
+  Definition key_det (s : mserver) (reqs : list mreq) : Prop :=
+    forall r1 r2, In r1 reqs -> In r2 reqs -> rq_key r1 = rq_key r2 -> twin_out s r1 = twin_out s r2.
+
+  (** the eviction oracle reports a hit only for a key that was put before; it may
+      report a miss for any key (arbitrary eviction) *)
+  Fixpoint hits_present (s : mserver) (c : cache) (reqs : list mreq) : Prop :=
+    match reqs with
+    | [] => True
+    | r :: t => (rq_hit r = true -> cache_get (rq_key r) c <> None) /\
+                hits_present s (snd (search q s c r)) t
+    end.
+
+  (** the property for one request and its outcome (status, backend invoked or 0) *)
+  Definition good (s : mserver) (r : mreq) (out : N * N) : Prop :=
+    (denied q s r = true ->
+       400 <= fst out < 500 /\ snd out = 0 /\
+       (forall ri pi, twin_out s r = ORoute ri pi -> fst out = 403)) /\
+    (denied q s r = false -> out = serve (erase s) (twin_out s r)).
+
+  Lemma miss_put_sound : forall s r o v, search_miss q s r = (o, Some v) -> sound s r v.
+  Proof.
+    intros s r o v H. unfold sound, twin_out, search_nocache, search_miss in *.
+    cbn [erase ms_filter ms_rules allow_opt negb]. rewrite combine_erase_rules.
+    destruct (allow_opt q (ms_filter s) (rq_ip r)); cbn [negb] in H; [|discriminate].
+    eapply rules_loop_put_sound. eassumption.
+  Qed.
+
+  Lemma twin_status_4xx : forall s r c, twin_out s r = OStatus c -> 400 <= c < 500.
+  Proof.
+    intros s r c H. unfold twin_out, search_nocache, search_miss in H.
+    cbn [erase ms_filter allow_opt negb] in H. apply rules_loop_status in H. lia.
+  Qed.
+
+  Lemma good_miss : forall s r, good s r (serve s (search_nocache q s r)).
+  Proof.
+    intros s r. split; intro Hd.
+    - rewrite nocache_denied_refused by assumption. cbn. split; [lia | split; [reflexivity | intros; reflexivity]].
+    - apply nocache_not_denied_as_twin. assumption.
+  Qed.
+
+  Lemma good_hit : forall s r v, sound s r v -> good s r (serve s (search_hit q s r v)).
+  Proof.
+    intros s r [c | ri pi] Hs; unfold sound in Hs.
+    - cbn [search_hit serve fst snd]. split; intro Hd.
+      + pose proof (twin_status_4xx s r c Hs) as H4. split; [exact H4 | split; [reflexivity|]].
+        intros ri pi Hr. rewrite Hr in Hs. discriminate.
+      + rewrite Hs. reflexivity.
+    - rewrite (hit_route q q s r ri pi Hq Hs). split; intro Hd; rewrite Hd.
+      + cbn. split; [lia | split; [reflexivity | intros; reflexivity]].
+      + rewrite Hs, serve_erase. reflexivity.
+  Qed.
+
+  Lemma key_det_tail : forall s r t, key_det s (r :: t) -> key_det s t.
+  Proof. intros s r t H r1 r2 H1 H2. apply H; right; assumption. Qed.
+
+  Theorem run_enforced : forall s reqs c,
+    key_det s reqs -> cache_ok s c reqs -> hits_present s c reqs ->
+    Forall2 (good s) reqs (run q s c reqs).
+  Proof.
+    intros s reqs. induction reqs as [|r t IH]; intros c Hk Hc Hh; cbn [run]; [constructor|].
+    destruct Hh as [Hhit Hh]. unfold search in *.
+    destruct (rq_hit r) eqn:Eh.
+    - destruct (cache_get (rq_key r) c) as [v|] eqn:Eg; [|exfalso; apply Hhit; reflexivity].
+      cbn [snd] in Hh. constructor.
+      + apply good_hit. apply Hc; [left; reflexivity | exact Eg].
+      + apply IH; [eapply key_det_tail; eassumption | | exact Hh].
+        intros r' v' Hin. apply Hc. right. exact Hin.
+    - destruct (search_miss q s r) as [o put] eqn:Em. cbn [snd] in Hh. constructor.
+      + replace o with (search_nocache q s r) by (unfold search_nocache; rewrite Em; reflexivity).
+        apply good_miss.
+      + apply IH; [eapply key_det_tail; eassumption | | exact Hh].
+        intros r' v' Hin Hg. destruct put as [v0|]; cbn [cache_put] in Hg.
+        * cbn [cache_get] in Hg. destruct (rq_key r' =? rq_key r) eqn:Ek.
+          -- inversion Hg; subst v'. apply N.eqb_eq in Ek.
+             pose proof (miss_put_sound s r o v0 Em) as Hs. unfold sound in *.
+             rewrite (Hk r' r); [exact Hs | right; exact Hin | left; reflexivity | exact Ek].
+          -- apply Hc; [right; exact Hin | exact Hg].
+        * apply Hc; [right; exact Hin | exact Hg].
+  Qed.
+End History.
+
+(** * 6. refutations: with one defect flag on, the property fails on a concrete input *)
+
+Definition q_mapped : quirks := {| q_mapped_entry_dead := true; q_hit_skips_visited_rules := false |}.
+Definition q_hitskip : quirks := {| q_mapped_entry_dead := false; q_hit_skips_visited_rules := true |}.
+
+(** allowIPs [::ffff:1.2.3.4], blockByDefault: the client 1.2.3.4 lies in an allowed
+    entry and in no blocked one, yet it is denied *)
+Lemma refuted_mapped :
+  exists f a, lies_in (f_allow f) a /\ ~ lies_in (f_block f) a /\ allow q_mapped f (Some a) = false.
+Proof.
+  set (e := {| e_fam := V4; e_pre := 16909060; e_len := 32; e_mapped := true |}).
+  exists {| f_block_default := true; f_allow := [e]; f_block := [] |}, {| a_fam := V4; a_val := 16909060 |}.
+  split; [|split].
+  - exists e. split; [left; reflexivity | vm_compute; reflexivity].
+  - intros [x [[] _]].
+  - vm_compute. reflexivity.
+Qed.
+
+(** rules [host-matching rule with filter "block 10.0.0.8" and no matching path;
+    rule with the route to backend 2]: after an allowed client cached the route, the
+    blocked client is dispatched (200, backend 2) although the cache-less server
+    refuses it with 403 *)
+Definition wit_block8 : ipf :=
+  {| f_block_default := false; f_allow := [];
+     f_block := [{| e_fam := V4; e_pre := 167772168; e_len := 32; e_mapped := false |}] |}.
+Definition wit_server : mserver :=
+  {| ms_filter := None;
+     ms_rules := [ {| mr_filter := Some wit_block8; mr_paths := [] |};
+                   {| mr_filter := None;
+                      mr_paths := [ {| mp_filter := None; mp_has_hdr := false; mp_backend := 2 |} ] |} ] |}.
+Definition wit_bits : list (bool * list pbits) :=
+  [(true, []); (true, [ {| pb_path := true; pb_method := true; pb_hdr := false |} ])].
+Definition wit_req (ip : N) (hit : bool) : mreq :=
+  {| rq_ip := Some {| a_fam := V4; a_val := ip |}; rq_key := 1; rq_hit := hit; rq_m := wit_bits |}.
+Definition wit_reqs : list mreq := [wit_req 872480001 false; wit_req 167772168 true].
+
+Lemma refuted_hitskip :
+  exists s reqs r,
+    nth_error reqs 1 = Some r /\ denied ideal s r = true /\
+    nth_error (run q_hitskip s [] reqs) 1 = Some (200, 2) /\
+    nth_error (run_nocache q_hitskip s reqs) 1 = Some (403, 0) /\
+    nth_error (run ideal s [] reqs) 1 = Some (403, 0).
+Proof.
+  exists wit_server, wit_reqs, (wit_req 167772168 true). vm_compute. repeat split; reflexivity.
+Qed.
+
+(** non-vacuity of [run_enforced]: the witness history satisfies its hypotheses *)
+Lemma run_enforced_nonvacuous :
+  key_det ideal wit_server wit_reqs /\ cache_ok ideal wit_server [] wit_reqs /\
+  hits_present ideal wit_server [] wit_reqs /\
+  run ideal wit_server [] wit_reqs = [(200, 2); (403, 0)].
+Proof.
+  split; [|split; [|split]].
+  - intros r1 r2 [<-|[<-|[]]] [<-|[<-|[]]] _; reflexivity.
+  - intros r v _ H. discriminate.
+  - cbn. split; [discriminate|]. split; [discriminate | exact I].
+  - vm_compute. reflexivity.
+Qed.
+
+Lemma cache_ok_empty : forall q s reqs, cache_ok q s [] reqs.
+Proof. intros q s reqs r v _ H. discriminate. Qed.
+
+Lemma run_enforced_ideal : forall s reqs,
+  key_det ideal s reqs -> hits_present ideal s [] reqs ->
+  Forall2 (good ideal s) reqs (run ideal s [] reqs).
+Proof.
+  intros s reqs Hk Hh. apply run_enforced; auto. apply cache_ok_empty.
+Qed.
